@@ -92,7 +92,10 @@ fn write_piece(fmt: Fmt, v: &Val, style: &Style, sep: u8, index: usize, prev: Op
                 ["", " ", "\n"][sep as usize % 3]
             } else {
                 match sep % 6 {
-                    0 if prev.map_or(false, self_delim) && self_delim(v) => "",
+                    // documents may touch when at least one of the two neighbours
+                    // delimits itself: `[1]2`, `1[2]`, `true"x"` (two bare scalars
+                    // may not: K1)
+                    0 if prev.map_or(false, self_delim) || (prev.is_some() && self_delim(v)) => "",
                     0 | 1 => "\n",
                     2 => " ",
                     3 => "\n\n",
